@@ -91,9 +91,23 @@ def _appends(s, lst_term):  # type: ignore
 
 def r17_3(ck: Check) -> None:
     from ..engine.match import same_function
+    # the private level builder of the proof tree is whatever get_merkle_tree hands its leaves to (its name is not part of the interface)
+    pub = ck.summ(MT + "get_merkle_tree", 0)
+    leaves = Spec(pub, ("hs",)).term("[MerkleNode(i, (), h) for (i, h) in enumerate(hs)]")
+    from ..engine.match import function_value
+    pv = function_value(pub)
+    builder = None
+    if pv is not None and pv[0] == "call" and pv[1][0] == "g" and pv[1][1] in ck.repo.functions and pv[2] == (leaves,) and not pv[3]:
+        builder = pv[1][1][len(MT):]
+    if builder is None:
+        ck.violated("R17.3", "get_merkle_tree hands [MerkleNode(i, (), h) for (i, h) in enumerate(hs)] to the level builder",
+                    "leaves carry the ids in list order with their positions — returns %s" % (show(pv)[:200] if pv is not None else None), pub.fi.loc)
+        return
+    ck.ok("R17.3", "get_merkle_tree hands [MerkleNode(i, (), h) for (i, h) in enumerate(hs)] to the level builder",
+          "leaves carry the ids in list order with their positions (builder: %s)" % builder, pub.fi.loc)
     for fn, pair_expr, what in (
             ("get_merkle_root", "sha256d(c[0] + c[1])", "hash of left ++ right"),
-            ("_get_merkle_tree", "MerkleNode(c[0].index, (c[0], c[1]))", "node with children (left, right)")):
+            (builder, "MerkleNode(c[0].index, (c[0], c[1]))", "node with children (left, right)")):
         s = ck.summ(MT + fn, 0)
         sp = Spec(s, ("lst",))
         want = sp.term("lst[0] if len(lst) == 1 else %s([(%s if len(c) == 2 else c[0]) for c in _chunks(lst, 2)])" % (fn, pair_expr))
@@ -115,9 +129,6 @@ def r17_3(ck: Check) -> None:
         ck.ok("R17.3", construct, "the proof tree hashes like get_merkle_root", s.fi.loc)
     else:
         ck.violated("R17.3", construct, "returns %s" % "; ".join(show(r.term) for r in rets), s.fi.loc)
-    s = ck.summ(MT + "get_merkle_tree", 0)
-    require_return(ck, "R17.3", s, Spec(s, ("hs",)), "_get_merkle_tree([MerkleNode(i, (), h) for (i, h) in enumerate(hs)])",
-                   "leaves carry the ids in list order with their positions")
 
 
 def r17_4(ck: Check) -> None:
